@@ -1,7 +1,7 @@
 (* C35/Checker.v — executable entry points for the driver (definitions only). *)
 From Coq Require Import List NArith Bool.
 From Common Require Import Lock.
-From Conc Require Import Lin.
+From Conc Require Import Lin Cert.
 From C35 Require Import Model Gen.
 Import ListNotations.
 Local Open Scope N_scope.
@@ -14,6 +14,12 @@ Definition lru_lin (bud cap : N) (h : list (@orec op res)) : option bool :=
 (* plain search: Some true and Some false are both proved *)
 Definition lru_lin_complete (bud cap : N) (h : list (@orec op res)) : option bool :=
   lin_check_b rspec op res r_step res_eqb bud (r_new cap) h.
+
+(* certificate check (Conc/Cert.v): the positions of the records in linearization order, found by
+   an untrusted search in the driver, are checked here; a passing certificate is proved to make
+   the history linearizable *)
+Definition lru_cert (cap : N) (h : list (@orec op res)) (p : list nat) : bool :=
+  cert_ok rspec op res r_step res_eqb (r_new cap) h p.
 
 (* lock modes as read from the Go source *)
 Definition lru_mode (o : op) : lockmode := mode_of lru_locks o.
